@@ -434,6 +434,9 @@ func c04Builtins(c *lib.Ctx) {
 		}
 		isArity := out == "arity-few" || out == "arity-many"
 		form := b.form(r.argc)
+		if k%(len(refs)/4+1) == 7 {
+			c.Ev.Sample(map[string]string{"form": form, "documented": "(" + strings.Join(b.doc, " ") + ")", "range": where, "outcome": out})
+		}
 		switch {
 		case inRange && isArity:
 			v := get(r.b)
